@@ -22,7 +22,8 @@ from zoo import meshes as Z
 
 PROPERTY = "C15"
 
-OPS = ["solve_a", "solve_b", "save", "folder0", "folderA", "folderB", "set0", "setlast", "get0", "res0", "replacemesh", "saveload"]
+# "save_user": Save_Iter(info) with the documented optional dict, the SAME dict object updated and handed over at every call (load-loop idiom)
+OPS = ["solve_a", "solve_b", "save", "save_user", "folder0", "folderA", "folderB", "set0", "setlast", "get0", "res0", "replacemesh", "saveload"]
 PREFIXES = {"init": ["save", "solve_a", "save"],  # iteration 0 = the initial state, saved before any solve; iteration 1 solved
             "mem": ["solve_a", "save"], "disk": ["folderA", "solve_a", "save"], "two": ["solve_a", "save", "solve_b", "save"],
             "twomesh": ["solve_a", "save", "replacemesh", "solve_b", "save"]}
@@ -481,6 +482,8 @@ def _run(case, scn, tmp):
             out.append(viol("read_not_pure", f"{where}: reading stored iterations changed the live state", **kk))
         return out
 
+    user_info = {}
+
     def apply(op):
         nonlocal key, simu, nrestore
         kk = dict(k0, ops="+".join(done))
@@ -488,8 +491,12 @@ def _run(case, scn, tmp):
         if op in ("solve_a", "solve_b"):
             scn.load(simu, key, op[-1])
             scn.solve(simu)
-        elif op == "save":
-            simu.Save_Iter()
+        elif op in ("save", "save_user"):
+            if op == "save":
+                simu.Save_Iter()
+            else:
+                user_info["step"] = float(len(done))
+                simu.Save_Iter(user_info)
             snaps.append({"fields": scn.fields(simu), "named": scn.named(simu), "stored": copy.deepcopy(simu.Get_results(-1)),
                           "coords": np.array(simu.mesh.coord), "Nn": simu.mesh.Nn, "mesh": key})
         elif op.startswith("folder"):
